@@ -935,4 +935,161 @@ theorem rlProj_regs (cfg : HCfg) (ip : Nat) (es : List (Nat × HEv)) :
         simp only [allowsOf, h3']
         by_cases hai : a = ip <;> simp [hai]
 
+/-! ### C'. `allow` cut into its critical sections -/
+
+theorem grant_char (cfg : RateLimitConfig) (U t : Nat) (b0 : Option TokenBucket) :
+    InvB t (some (allowB cfg U t b0).1) ∧
+    Phi cfg U (some (allowB cfg U t b0).1) t + (if (allowB cfg U t b0).2 then U else 0) = Phi cfg U b0 t := by
+  have hsp := allowB_spec cfg U t b0
+  have hle := Phi_le_cap cfg U b0 t
+  refine ⟨fun x hx => by cases hx; exact Nat.le_of_eq hsp.1, ?_⟩
+  have : Phi cfg U (some (allowB cfg U t b0).1) t = (allowB cfg U t b0).1.tokens := by
+    simp only [Phi, hsp.1, Nat.sub_self, Nat.zero_mul, Nat.add_zero]
+    have := hsp.2
+    split at this <;> omega
+  rw [this]; exact hsp.2
+
+theorem setAt_same {α} (f : Nat → α) (a : Nat) (v : α) : setAt f a v a = v := by simp [setAt]
+theorem setAt_other {α} (f : Nat → α) (a k : Nat) (v : α) (h : k ≠ a) : setAt f a v k = f k := by simp [setAt, h]
+
+/-- Every step either says nothing about `ip` and leaves its potential alone, or answers one call of
+`ip` and lowers the potential by exactly what it granted. -/
+theorem xStep_char (cfg : RateLimitConfig) (U : Nat) (hwf : cfg.Burst * U ≤ cfg.Rate * cfg.TTL)
+    (t ip : Nat) (e : XEv) (s : XState) (hi : InvB t (s.buckets ip)) :
+    InvB t ((xStep cfg U t e s).1.buckets ip) ∧
+    match obsFor ip e (xStep cfg U t e s).2 with
+    | none => Phi cfg U ((xStep cfg U t e s).1.buckets ip) t = Phi cfg U (s.buckets ip) t
+    | some adm => Phi cfg U ((xStep cfg U t e s).1.buckets ip) t + (if adm then U else 0) = Phi cfg U (s.buckets ip) t := by
+  cases e with
+  | allow a =>
+    by_cases ha : a = ip
+    · subst ha
+      have g := grant_char cfg U t (s.buckets a)
+      simp only [xStep, rlStep, obsFor, if_true]
+      exact g
+    · have hne : ¬ ip = a := fun h => ha h.symm
+      simp only [xStep, rlStep, obsFor, ha, hne, if_false]
+      exact ⟨hi, by first | trivial | rfl⟩
+  | cleanup =>
+    simp only [xStep, rlStep, obsFor]
+    exact ⟨cleanupB_Inv cfg hi, cleanupB_Phi cfg U hwf t _⟩
+  | lookup a =>
+    simp only [xStep, obsFor]
+    exact ⟨hi, by first | trivial | rfl⟩
+  | create a i =>
+    simp only [xStep]
+    split
+    · simp only [obsFor]
+      by_cases ha : ip = a
+      · subst ha
+        rw [setAt_same]
+        cases hb : s.buckets ip with
+        | none =>
+          refine ⟨fun x hx => by cases hx; exact Nat.le_refl _, ?_⟩
+          simp [Phi]
+        | some b =>
+          rw [hb] at hi
+          exact ⟨hi, by first | trivial | rfl⟩
+      · rw [setAt_other _ _ _ _ ha]
+        exact ⟨hi, by first | trivial | rfl⟩
+    · simp only [obsFor]
+      exact ⟨hi, by first | trivial | rfl⟩
+  | take a i =>
+    simp only [xStep]
+    split
+    · split
+      · by_cases ha : a = ip
+        · subst ha
+          have g := grant_char cfg U t (s.buckets a)
+          simp only [obsFor, if_true, setAt_same]
+          exact g
+        · have hne : ip ≠ a := fun h => ha h.symm
+          simp only [obsFor, ha, if_false]
+          rw [setAt_other _ _ _ _ hne]
+          exact ⟨hi, by first | trivial | rfl⟩
+      · by_cases ha : a = ip
+        · simp only [obsFor, ha, if_true]
+          exact ⟨hi, by simp⟩
+        · simp only [obsFor, ha, if_false]
+          exact ⟨hi, by first | trivial | rfl⟩
+    · simp only [obsFor]
+      exact ⟨hi, by first | trivial | rfl⟩
+
+theorem xpot (cfg : RateLimitConfig) (U : Nat) (hwf : cfg.Burst * U ≤ cfg.Rate * cfg.TTL) (ip : Nat)
+    (es : List (Nat × XEv)) :
+    ∀ (t0 : Nat) (s : XState), Sorted t0 es → InvB t0 (s.buckets ip) → ∀ n,
+      t0 ≤ lastTime t0 ((xAllowsOf ip es (xRun cfg U es s)).take n) ∧
+      admitted ((xAllowsOf ip es (xRun cfg U es s)).take n) * U ≤
+        Phi cfg U (s.buckets ip) t0 + cfg.Rate * (lastTime t0 ((xAllowsOf ip es (xRun cfg U es s)).take n) - t0) := by
+  induction es with
+  | nil => intro t0 s _ _ n; simp [xAllowsOf, admitted, lastTime]
+  | cons e es ih =>
+    intro t0 s hs hi n
+    obtain ⟨h0, hs'⟩ := hs
+    obtain ⟨t, ev⟩ := e
+    simp only at h0 hs'
+    have hit : InvB t (s.buckets ip) := fun x hx => Nat.le_trans (hi x hx) h0
+    obtain ⟨hi', hc⟩ := xStep_char cfg U hwf t ip ev s hit
+    have hm := Phi_mono cfg U (s.buckets ip) hi h0
+    simp only [xRun, xAllowsOf]
+    cases ho : obsFor ip ev (xStep cfg U t ev s).2 with
+    | none =>
+      simp only [ho] at hc ⊢
+      have := ih t _ hs' hi' n
+      generalize (xAllowsOf ip es (xRun cfg U es (xStep cfg U t ev s).1)).take n = L at this ⊢
+      cases L with
+      | nil => simp [admitted, lastTime]
+      | cons x xs =>
+        simp only [lastTime] at this ⊢
+        obtain ⟨h1, h2⟩ := this
+        have h3 := mul_split cfg.Rate t0 t (lastTime x.1 xs) h0 h1
+        exact ⟨by omega, by omega⟩
+    | some adm =>
+      simp only [ho] at hc ⊢
+      cases n with
+      | zero => simp [admitted, lastTime]
+      | succ n =>
+        have := ih t _ hs' hi' n
+        rw [lastTime_take_succ, List.take_succ_cons, admitted_cons]
+        generalize (xAllowsOf ip es (xRun cfg U es (xStep cfg U t ev s).1)).take n = L at this ⊢
+        obtain ⟨h1, h2⟩ := this
+        have h3 := mul_split cfg.Rate t0 t (lastTime t L) h0 h1
+        dsimp only
+        refine ⟨by omega, ?_⟩
+        rw [Nat.add_mul]
+        cases adm <;> simp_all <;> omega
+
+theorem xstretches (cfg : RateLimitConfig) (U : Nat) (hwf : cfg.Burst * U ≤ cfg.Rate * cfg.TTL) (ip : Nat)
+    (es : List (Nat × XEv)) :
+    ∀ (t0 : Nat) (s : XState), Sorted t0 es → InvB t0 (s.buckets ip) →
+      stretchesOK cfg U (xAllowsOf ip es (xRun cfg U es s)) = true := by
+  induction es with
+  | nil => intros; rfl
+  | cons e es ih =>
+    intro t0 s hs hi
+    have hit : InvB e.1 (s.buckets ip) := fun x hx => Nat.le_trans (hi x hx) hs.1
+    have hpot := xpot cfg U hwf ip (e :: es) e.1 s ⟨Nat.le_refl _, hs.2⟩ hit
+    obtain ⟨hi', _⟩ := xStep_char cfg U hwf e.1 ip e.2 s hit
+    simp only [xRun, xAllowsOf] at hpot ⊢
+    cases ho : obsFor ip e.2 (xStep cfg U e.1 e.2 s).2 with
+    | none =>
+      simp only [ho]
+      exact ih e.1 _ hs.2 hi'
+    | some adm =>
+      simp only [ho] at hpot ⊢
+      simp only [stretchesOK, Bool.and_eq_true]
+      refine ⟨?_, ih e.1 _ hs.2 hi'⟩
+      apply prefixesOK_of_bound
+      intro n
+      have h1 := (hpot n).2
+      have h2 := Phi_le_cap cfg U (s.buckets ip) e.1
+      dsimp only at h1 ⊢
+      omega
+
+theorem xRun_length (cfg : RateLimitConfig) (U : Nat) (es : List (Nat × XEv)) :
+    ∀ s, (xRun cfg U es s).length = es.length := by
+  induction es with
+  | nil => intro; rfl
+  | cons e es ih => intro s; simp [xRun, ih]
+
 end Tunnox.C18
